@@ -15,6 +15,9 @@ def run(tier, seed):
     _, rep_e, _ = enginecommon.histories(v, wd, "engine", d)
     _, rep_n, _ = enginecommon.histories(v, wd, "engine", d, initset="notagblock")
     _, rep_b, _ = enginecommon.histories(v, wd, "blocker", d if tier == "thorough" else 3)
+    runs, nops = (1, 800) if tier == "quick" else (6, 3000)
+    enginecommon.longhist_stage(v, wd, seed, "engine", runs, nops)
+    enginecommon.longhist_stage(v, wd, seed, "blocker", runs, nops)
     vlib.require(rep_e["nontrivial"] > 50 and rep_n["nontrivial"] > 20, "history replay too small")
     v.assumptions += ["tag + redirect / tag + removeparam are documented as unsupported and are outside the universes",
                       "tag_exists is probed for the tag names of the universe (t1,t2) plus one unused name"]
